@@ -168,7 +168,10 @@ def judge_check(ctx, box, gname, g, m, rng):
     if via_file:
         # the CLI drops one trailing newline of an input file (the one an editor or `isla solve > file` adds); a word that
         # itself ends in a newline is therefore always written the way those tools write it, with the extra one
-        inp = ([], [box.file(".txt", content + ("\n" if scenario == "member" and (rng.random() < 0.5 or content.endswith("\n")) else ""))])
+        written = content + ("\n" if scenario == "member" and (rng.random() < 0.5 or content.endswith("\n")) else "")
+        inp = ([], [box.file(".txt", written)])
+        if scenario == "near-miss" and written.endswith("\n"):
+            content = written[:-1]          # what the command reads: the file without its final newline
     else:
         if content == "" or content.startswith("-"):
             return
